@@ -22,8 +22,8 @@ CASE_TIMEOUT = 60
 WALL = {"quick": 900, "thorough": 7200}
 REQUIRED = {"link_matches_expected": 300, "rej_order": 100, "rej_induced": 100, "rej_resname": 50, "rej_linktype": 10,
             "rej_nonedge": 3, "rej_pattern": 5, "overrides": 5, "dangling_matches": 20, "removals": 3,
-            "replacements": 5, "inter_residue_edges_checked": 200, "library_link_matches": 2000, "libraries": 6, "node_keys_not_like_residue_ids": 500, "cases_with_type_replacing_links": 300, "dangling_windows_that_skip_a_residue": 100}
-LINK_OPTS = {"p_remove": 0.12, "p_nonedge": 0.25, "p_pattern": 0.2, "linktypes": True, "p_edge": 0.25,
+            "replacements": 5, "inter_residue_edges_checked": 200, "library_link_matches": 2000, "libraries": 6, "node_keys_not_like_residue_ids": 500, "cases_with_type_replacing_links": 300, "dangling_windows_that_skip_a_residue": 100, "links_with_an_edge_between_atoms_no_interaction_names": 15}
+LINK_OPTS = {"p_remove": 0.12, "p_nonedge": 0.25, "p_pattern": 0.2, "linktypes": True, "p_edge": 0.25, "p_edge_only_atoms": 0.35,
              "nres": [2, 2, 2, 3, 3, 4], "p_replace": 0.2, "p_version": 0.15, "p_attr": 0.2, "p_partial_resname": 0.2}
 
 
@@ -105,6 +105,8 @@ def run_case(cid, rng, workdir):
             from .C13 import relabel
             case["graph"], _mode = relabel(rng, case["graph"])
             bump(res, "node_keys_not_like_residue_ids")
+        if any(l.get("edge_only_atoms") for l in case["spec"]["links"]):
+            bump(res, "links_with_an_edge_between_atoms_no_interaction_names")
         ev = PC.evaluate(case, workdir)
     res["sig"] = sig_of([case["files"], case["graph"]])
     res["sample"] = case["descr"]
